@@ -35,10 +35,21 @@ def units(tier):
     add("D=3 cancel=0 unshield-mid", D=3, cancel=0, toggle=(1, False), shields=(False, True, False), J=1, post0=quick)
     add("D=3 cancel=0 cancel2=1 mid-shielded", D=3, cancel=0, cancel2=1, shields=(False, True, True), toggle=(2, False), J=0, post0=True)
     if not quick:
-        add("D=3 cancel=0 T=2", D=3, cancel=0, T=2)
-        add("D=3 cancel=2 cancel2=0", D=3, cancel=2, cancel2=0)
+        import itertools as _it
+
         add("D=2 cancel=0 eager child", D=2, cancel=0, in_child=True, eager=True)
-        add("D=3 cancel=1 toggle-on", D=3, cancel=1, toggle=(2, True))
+        # depth 3 with every concrete shield vector (8 exploration roots per shape instead of one huge one)
+        for shv in _it.product((False, True), repeat=3):
+            tag = "".join("S" if x else "-" for x in shv)
+            add("D=3 cancel=0 T=2 shields=%s" % tag, D=3, cancel=0, T=2, J=1, shields=shv)
+            add("D=3 cancel=2 cancel2=0 shields=%s" % tag, D=3, cancel=2, cancel2=0, shields=shv)
+            add("D=3 cancel=1 cancel2=2 shields=%s" % tag, D=3, cancel=1, cancel2=2, shields=shv)
+            for lv in (1, 2):
+                add("D=3 cancel=0 toggle=(%d,%s) shields=%s" % (lv, not shv[lv], tag), D=3, cancel=0, toggle=(lv, not shv[lv]), shields=shv, J=1)
+        for shv in _it.product((False, True), repeat=4):
+            if sum(shv) == 1:
+                tag = "".join("S" if x else "-" for x in shv)
+                add("D=4 cancel=3 cancel2=0 shields=%s" % tag, D=4, cancel=3, cancel2=0, shields=shv, T=1, J=1, post0=True)
     add("D=1 deadline initially inf or finite, re-armed (cancelled by its deadline)", D=1, deadlines=(0,), redeadline=(0,), dl_may_be_inf=True, shields=(False,))
     add("D=2 outer deadline, inner shield sym", D=2, deadlines=(0,), shields="sym")
     for env in (("group",), ("outer",)):
